@@ -38,6 +38,41 @@ def run(ctx):
     rsub["failures"] += f_sh
     rsub["evaluations"] += n_sh
     results.append(rsub)
+    # times given as (fractional) epoch seconds: shifting all of them by a constant - sub-second constants included -
+    # leaves the flags unchanged (flat line on axes with steps 0.25 .. 2.5 s; every shifted stamp is a float exactly)
+    import copy
+    import core
+    import fn_flat as ff
+    flat = ff.FlatLine()
+    frc = ff.gen_flat_fractional(tier, rng)
+    frc = frc[: (60 if tier == "quick" else 600)]
+    f_ep, n_ep = [], 0
+    tr, applied = cc.carrier_transform(None, "epoch_s_array", None)
+    for c in frc:
+        core.KW_TRANSFORM = tr
+        try:
+            applied["n"] = 0
+            base, _ = flat.impl(c)
+            if not applied["n"]:
+                continue
+            for shift_ms in (250, 500, 750, 1000, 3600250, 86400500):
+                d = copy.deepcopy(c)
+                d["ts"] = [t + shift_ms * 10 ** 6 for t in c["ts"]]
+                applied["n"] = 0
+                got, _ = flat.impl(d)
+                if not applied["n"]:
+                    continue
+                n_ep += 1
+                if got != base:
+                    f_ep.append({"kind": "predicate", "function": "flat_line_test",
+                                 "case": {"original": c, "shift_ms": shift_ms, "time_carrier": "epoch seconds (float array)"},
+                                 "impl": base, "impl_transformed": got,
+                                 "clause": "flags not invariant under a shift of all timestamps (times given as epoch seconds)"})
+                    break
+        finally:
+            core.KW_TRANSFORM = None
+    results.append({"evaluations": n_ep, "distinct_nontrivial": n_ep, "failures": f_ep, "errors": [], "samples": [],
+                    "distribution": {"epoch_second_time_shifts": n_ep}})
     out = adapters.merge(
         results,
         rule="per test: sampled in-domain cases transformed by a value offset, negation, time offset, joint data+span "
